@@ -41,7 +41,15 @@ fn main() {
     let _ = passage_protocol::crypto::generate_keep_alive();
     let _ = passage_protocol::crypto::KEY_PAIR.1.clone();
     let _ = passage_protocol::crypto::ENCODED_PUB.len();
+    // the application's configuration loader, run once per way of giving it a secret (sets environment variables: first thing)
+    net::preload_secrets();
     let args: Vec<String> = std::env::args().collect();
+    if args.get(1).map(String::as_str) == Some("loaded-secrets") {
+        for (i, raw) in net::SECRET_SOURCES.iter().enumerate() {
+            println!("{raw:?} -> env {:?} file {:?}", net::loaded_secret(0, i), net::loaded_secret(1, i));
+        }
+        return;
+    }
     let checks = props::all();
     let code = std::panic::catch_unwind(std::panic::AssertUnwindSafe(|| run(&args, &checks)));
     let code = match code {
